@@ -27,6 +27,7 @@ import (
 	"strconv"
 	"strings"
 	"sync"
+	"sync/atomic"
 	"time"
 
 	"github.com/alicebob/miniredis/v2"
@@ -135,7 +136,7 @@ func parseCase(s string) (*kase, error) {
 			if e.dt, err = strconv.ParseInt(t[2:], 10, 64); err != nil || e.dt < 0 {
 				return nil, errors.New("bad tick")
 			}
-		case 'q', 'r': // split lookup: <node>.<client>
+		case 'q', 'r', 'y', 'z', 'm', 'n': // split lookup / split consumer: <node>.<client>
 			p := strings.Split(t[2:], ".")
 			if len(p) != 2 {
 				return nil, errors.New("bad lookup")
@@ -166,7 +167,7 @@ func parseCase(s string) (*kase, error) {
 	}
 	if k.sched != "" {
 		n := len(k.evs)
-		bad := func(c byte) bool { return c == 't' || c == 'w' || c == 'q' || c == 'r' || c == 'x' }
+		bad := func(c byte) bool { return strings.IndexByte("twqrxyzmn", c) >= 0 }
 		if n < 2 || bad(k.evs[n-1].code) || bad(k.evs[n-2].code) || k.evs[n-1].c.node == k.evs[n-2].c.node {
 			return nil, errors.New("sched: the last two events must be handler calls on different nodes")
 		}
@@ -235,11 +236,17 @@ func (r *recorder) take() []string {
 }
 
 // fakeRW is the transport of a connection: nothing to read, writes are swallowed.
-type fakeRW struct{ id string }
+type fakeRW struct {
+	id     string
+	writes atomic.Int64 // number of Write calls (a packet sent to the client)
+}
 
-func (f *fakeRW) Read(p []byte) (int, error)  { return 0, io.EOF }
-func (f *fakeRW) Write(p []byte) (int, error) { return len(p), nil }
-func (f *fakeRW) GetConnectionID() string     { return f.id }
+func (f *fakeRW) Read(p []byte) (int, error) { return 0, io.EOF }
+func (f *fakeRW) Write(p []byte) (int, error) {
+	f.writes.Add(1)
+	return len(p), nil
+}
+func (f *fakeRW) GetConnectionID() string { return f.id }
 
 // ------------------------------------------------------------------ shared miniredis
 
@@ -270,6 +277,8 @@ func redisStore(i int) storage.Storage {
 type nodeEnv struct {
 	down  bool // the session manager was shut down: its routing decision is not observed any more
 	id    string
+	park  *parkStore
+	rws   map[string]*fakeRW // transports of the connections created on this node
 	cloud *cloudNode
 	sm    *session.SessionManager
 	cs    *connstate.Store
@@ -411,7 +420,9 @@ func runCase(k *kase) (res runResult) {
 		n.cloud = newCloudNode(ctx, stores[j])
 		n.sm.SetAuthHandler(cloudAuth{cloud: n.cloud, nodeID: n.id})
 		n.sm.SetCloudControl(n.cloud)
-		n.cs = session.NewConnectionStateStore(stores[j], n.id, time.Duration(k.ttl)*time.Millisecond)
+		n.park = newParkStore(stores[j])
+		n.rws = map[string]*fakeRW{}
+		n.cs = session.NewConnectionStateStore(n.park, n.id, time.Duration(k.ttl)*time.Millisecond)
 		n.sm.SetConnectionStateStore(n.cs)
 		n.sm.SetCrossNodePool(session.NewCrossNodePool(ctx, n.rec, n.id, session.DefaultCrossNodePoolConfig()))
 		nodes[j] = n
@@ -428,9 +439,38 @@ func runCase(k *kase) (res runResult) {
 			p.finish()
 		}
 	}()
+	requests := map[[3]int]*pendingRequest{}
+	defer func() {
+		for _, r := range requests {
+			r.finish()
+		}
+	}()
 	deliver := func(e event) error {
 		var herr error
 		switch e.code {
+		case 'y', 'm':
+			kind := 0
+			if e.code == 'm' {
+				kind = 1
+			}
+			key := [3]int{kind, e.c.node, e.c.client}
+			if old := requests[key]; old != nil {
+				old.finish()
+			}
+			requests[key] = startRequest(nodes[e.c.node], kind == 0, int64(e.c.client))
+		case 'z', 'n':
+			kind := 0
+			if e.code == 'n' {
+				kind = 1
+			}
+			key := [3]int{kind, e.c.node, e.c.client}
+			r := requests[key]
+			if r == nil {
+				herr = errors.New("no request in flight")
+				break
+			}
+			delete(requests, key)
+			herr = r.finish()
 		case 'q':
 			key := [2]int{e.c.node, e.c.client}
 			if old := lookups[key]; old != nil {
@@ -448,6 +488,9 @@ func runCase(k *kase) (res runResult) {
 			herr = p.finish().err
 		case 'o':
 			rw := &fakeRW{id: e.c.String()}
+			if _, dup := nodes[e.c.node].rws[rw.id]; !dup {
+				nodes[e.c.node].rws[rw.id] = rw
+			}
 			_, herr = nodes[e.c.node].sm.CreateConnection(rw, rw)
 		case 'h', 'f', 'u', 'v':
 			req := packet.HandshakeRequest{ClientID: int64(e.c.client), Version: "verif", Protocol: "tcp", Token: "ok", ConnectionType: "control"}
